@@ -666,3 +666,12 @@ def w9(ctx):
 
 
 RULES.append(w9)
+
+
+@rule("W10", cfgs=["explanations", "checks_explanations"], doc="no panic in the transport of symmetries on a class merge under explanations: the transported proof chain is well formed (C07.K16)")
+def w10(ctx):
+    from . import c07
+    c07.k16(ctx)
+
+
+RULES.append(w10)
